@@ -138,6 +138,8 @@ def native_replay(inst, rspec, inputs, instance, scratch):
         srcs = [os.path.join(inst["_dir"], rspec["cpp"])] + [os.path.join(REPO, s) for s in extra]
         cmd = ["g++", "-std=c++14", "-g", "-O0", "-DREPLAY_NATIVE", "-DREPLAY_INSTANCE_%s" % instance,
                "-I", os.path.join(d, "inc"), "-I", os.path.join(REPO, "src"), "-I", os.path.join(VERIF, "stubs", "native"), "-I", inst["_dir"]]
+        if rspec.get("ndebug"):
+            cmd += ["-DNDEBUG"]
         if rspec.get("asan", True):
             cmd += ["-fsanitize=address,undefined", "-fno-sanitize-recover=undefined"]
         cmd += srcs + ["-o", os.path.join(d, "replay")] + rspec.get("libs", ["-lgmp", "-lmpfr", "-lz"])
@@ -149,7 +151,8 @@ def native_replay(inst, rspec, inputs, instance, scratch):
                            stdout=subprocess.PIPE, stderr=subprocess.STDOUT, timeout=300)
         out = p.stdout.decode("utf-8", "replace")
         info.update({"ran": True, "rc": p.returncode, "output": out[-3000:], "cmd": " ".join(cmd)})
-        confirmed = p.returncode == 1 or "AddressSanitizer" in out or "runtime error" in out
+        # exit 1 of the driver, a sanitizer report, or an assertion of the real code firing on this input
+        confirmed = p.returncode == 1 or "AddressSanitizer" in out or "runtime error" in out or re.search(r"Assertion .* failed", out) is not None
         return confirmed, info
     except Exception as e:  # noqa
         info["error"] = str(e)
